@@ -482,6 +482,7 @@ func (r *yieldRewriter) rewriteSwitchStmt(
 			x,
 			body,
 		)
+		children = r.combineIfNecessary(children) // for init containing yield from (a loop)
 		children.push(switchStmt, kindTrival)
 		return children
 	}
